@@ -37,6 +37,7 @@ func (e *Engine) verifyFunc(key string) (vc *VC, err error) {
 	}()
 	vc.declare("alloc@0", sInt)
 	vc.fact("(<= 0 alloc@0)")
+	vc.bitsExact = c.Attrs["bits"] == "exact"
 	st := &State{heaps: map[string]string{}, alloc: "alloc@0"}
 	fr := &Frame{eng: e, vc: vc, fn: fn, key: key, vals: map[ssa.Value]*Val{}, st: st, reach: "true", contract: c, top: true,
 		overflow: c.Attrs["overflow"] == "check"}
@@ -57,6 +58,16 @@ func (e *Engine) verifyFunc(key string) (vc *VC, err error) {
 			names[fv.Name()] = v
 		}
 	}
+	for _, g := range c.Ghosts {
+		t := e.parseType(g.Type)
+		if t == nil {
+			fr.stale("ghost "+g.Name, fmt.Errorf("unknown type %s", g.Type))
+			continue
+		}
+		names[g.Name] = fr.havocVal(t, "ghost_"+g.Name)
+		fr.ghosts = append(fr.ghosts, names[g.Name])
+	}
+	fr.topNames = names
 	for i, rq := range c.Requires {
 		t, err := fr.evalClause(rq, &evalCtx{fr: fr, st: fr.st, old: fr.entry, names: names})
 		if err != nil {
@@ -65,6 +76,7 @@ func (e *Engine) verifyFunc(key string) (vc *VC, err error) {
 		}
 		vc.fact(t)
 	}
+	fr.seedAll()
 	e.assumeEntryInvariants(fr, names)
 	vc.covers = append(vc.covers, &Obl{Name: "requires/cover", Kind: "cover", Guard: "true", Formula: "true", NFacts: len(vc.facts), Func: key, Pos: e.fset.Position(fn.Pos())})
 	fr.run()
